@@ -109,6 +109,29 @@ def generate(rng, tier="quick"):
         if st["op"] == "recover" and st["n"] == 0 and rng.random() < 0.12:
             st["blob_as"] = "bytearray"
             st["scrub"] = rng.random() < 0.7
+    aborted = False
+    if not procs and rng.random() < 0.15:
+        # fault: library calls on R (and U) are aborted at an arbitrary instant by an injected
+        # MemoryError / KeyboardInterrupt.  An aborted serialize() must leave the instance as it was;
+        # an aborted from_serialized() is simply repeated; after an aborted finish() the application
+        # falls back on the durable state (persist before, restore after, call again).
+        aborted = True
+        out = []
+        started = set()
+        for st in steps:
+            n = st.get("n", st.get("dst"))
+            op = st["op"]
+            if n in (0, 1) and n in started and rng.random() < 0.4:
+                bad = dict(st, interrupt=gen.gen_interrupt(rng))
+                bad.pop("scrub", None)
+                if op in ("persist", "serialize", "recover"):
+                    out.append(bad)
+                elif op == "deliver" and n == 0:
+                    out += [{"op": "persist", "n": 0}, bad, {"op": "crash", "n": 0}, {"op": "recover", "n": 0}]
+            if op == "start":
+                started.add(n)
+            out.append(st)
+        steps = out
     cfg = {"psets": [pspec], "nodes": nodes}
     if procs:
         cfg["fresh_hosts"] = True
@@ -117,8 +140,10 @@ def generate(rng, tier="quick"):
     if rng.random() < 0.1:
         for nd in nodes[:3]:
             nd["subclass"] = True           # the application uses its own subclass of the session class
-    return {"property": PROP, "config": cfg, "steps": steps,
-            "intent": {"inbound": kind, "cycles": k, "procs": procs}}
+    intent = {"inbound": kind, "cycles": k, "procs": procs}
+    if aborted:
+        intent["aborted_calls"] = True
+    return {"property": PROP, "config": cfg, "steps": steps, "intent": intent}
 
 
 class Oracle(Hooks):
@@ -128,6 +153,9 @@ class Oracle(Hooks):
         self.blobs = {0: [], 1: [], 2: []}       # node -> [(instance generation, blob)]
 
     def after_step(self, w, step, ev):
+        if ev.get("interrupted"):
+            w.probe("aborted-call:" + ev["intr"]["api"])
+            return                      # a call the simulator aborted: its outcome is not the library's
         if ev["op"] in ("persist", "serialize") and ev["out"].startswith("exc:") and ev["n"] in self.blobs:
             n = w.nodes[ev["n"]]
             if isinstance(n.out, bytes):
@@ -192,7 +220,8 @@ class Oracle(Hooks):
                 w.probe("blob-json-equal")
         res = {}
         for n in (R, U, T):
-            evs = [e for e in w.events if e["op"] == "deliver" and e["n"] == n.idx and e["out"] != "skip"]
+            evs = [e for e in w.events if e["op"] == "deliver" and e["n"] == n.idx and e["out"] != "skip"
+                   and not e.get("interrupted")]
             if not evs:
                 res[n.idx] = None
                 continue
